@@ -31,12 +31,13 @@ Print Assumptions only_recipients.
    number of keyAgreement entries whose fragments are pairwise different, every entry — first, middle or last,
    whatever the other fragments look like (suffixes of one another included) — is resolved to ITS key both by the
    packager (fragment match) and by the repaired kid resolver (full id match): resolution is exact and
-   order-independent. *)
+   order-independent, and independent of the OTHER entries' verification-method types: entries no key can be built
+   from (vm_ok = false: unsupported suites, no key material) standing before or after the addressed one change nothing. *)
 Theorem keyref_resolution_exact : forall doc v,
-  NoDup (map vm_frag (dd_kas doc)) -> In v (dd_kas doc) ->
-  pk_find (dd_kas doc) (vm_frag v) = Some (vm_key v) /\
-  dr_first doc (dd_kas doc) (vm_full_id doc v) = Some (vm_key v).
-Proof. intros doc v Hnd Hin. split; [apply pk_find_own|apply dr_first_own]; assumption. Qed.
+  NoDup (map vm_frag (dd_kas doc)) -> In v (dd_kas doc) -> vm_ok v = true ->
+  pk_find (dd_kas doc) (vm_frag v) = FKey (vm_key v) /\
+  dr_first doc (dd_kas doc) (vm_full_id doc v) = FKey (vm_key v).
+Proof. intros doc v Hnd Hin Hok. split; [apply pk_find_own|apply dr_first_own]; assumption. Qed.
 Print Assumptions keyref_resolution_exact.
 
 (* the sender id "<kms kid>.<skid>" is split back into exactly its two parts, whatever dots the skid's DID has *)
@@ -178,10 +179,12 @@ Proof.
 Qed.
 
 (* non-vacuity for the key-reference layer: sender did:web:a.b.c#key (DID with two dots), recipients addressed
-   in a party document listing fragments [alt;alt;key], [alt;key], [key] (suffixes of one another) *)
+   in a party document listing fragments [alt;alt;key], [alt;key], [key] (suffixes of one another) between entries of
+   unsupported types *)
 Example keyrefs_nonvacuous :
-  let sdoc := mkdoc [10; DOT; 11; DOT; 12] [mkvm false [21] 1] in
-  let rdoc := mkdoc [13; DOT; 14] [mkvm true [20; 20; 21] 5; mkvm true [20; 21] 6; mkvm true [21] 7] in
+  let sdoc := mkdoc [10; DOT; 11; DOT; 12] [mkvm false [21] 1 true] in
+  let rdoc := mkdoc [13; DOT; 14] [mkvm true [20; 20; 20; 21] 0 false; mkvm true [20; 20; 21] 5 true; mkvm true [22; 21] 0 false;
+                                   mkvm true [20; 21] 6 true; mkvm true [21] 7 true; mkvm true [23] 0 false] in
   let d := [sdoc; rdoc] in
   let c := mkcfg JweAuth X25519 XC20P DidDocMulti in
   pk_resolve d (mkref [13; DOT; 14] [20; 21]) = Some 6 /\
